@@ -101,8 +101,11 @@ class FakeSession:
             h.running.add(i)
         return f
 
-    def submit(self, fn, *a, **kw):             # only past max_error_recursion; never with n <= 4
-        raise RuntimeError("session.submit not expected")
+    def submit(self, fn, *a, **kw):
+        """Session.submit: hands the task to the executor.  It runs LATER, on an executor thread (a logical thread
+        started at the spec's RunDeferred step), never inline - as with an already running pool thread."""
+        self.h.tasks.append((fn, a, kw))
+        self.h.log("submit", len(self.h.tasks))
 
 
 def _entry(r):
@@ -118,7 +121,7 @@ def _entry(r):
 
 
 class ConcHarness:
-    def __init__(self, n, c, fail_fast, variant, beh):
+    def __init__(self, n, c, fail_fast, variant, beh, rec=100):
         repo_import("cassandra.cluster")
         self.conc = conc = repo_import("cassandra.concurrent")
         self.n, self.c, self.ff, self.variant = n, c, fail_fast, variant
@@ -130,6 +133,11 @@ class ConcHarness:
         self.fut_attempts = []             # (kind, payload, made by function)
         self.errors = []                   # (thread, exception) raised out of the code under test into a thread
         self.completers = {}
+        self.tasks = []                    # tasks given to session.submit, in order
+        self.tasks_run = 0
+        # the recursion limit of the error path is shrunk on the real class (as id spaces are elsewhere)
+        self.saved_rec = conc._ConcurrentExecutor.max_error_recursion
+        conc._ConcurrentExecutor.max_error_recursion = rec
         self.nthreads = 0
         self.sched = DetSched()
         h = self
@@ -156,6 +164,7 @@ class ConcHarness:
 
     def close(self):
         self.conc.Future, self.conc.Condition = self.saved
+        self.conc._ConcurrentExecutor.max_error_recursion = self.saved_rec
         DetSched.current = None
 
     def log(self, kind, i):
@@ -218,6 +227,15 @@ class ConcHarness:
             # callback is a separate spec step (FutCheck for the future variant, LoopReturn otherwise) so that the
             # caller / consumer can be scheduled in between, at lock granularity
             return self.run(t, ("rel",))
+        if name == "RunDeferred":
+            # i = position of the task in submission order (the replayer maps the statement to it)
+            self.nthreads += 1
+            t = "X%d" % self.nthreads
+            self.last_completer = t
+            fn, a, kw = self.tasks[i]
+            self.tasks_run += 1
+            self.sched.spawn(t, fn, *a, **kw)
+            return self.run(t, ("rel",))
         if name in ("FutCheck", "LoopReturn"):
             return self.run(self.last_completer, ("never",))
         raise RuntimeError("unknown action %s" % name)
@@ -239,7 +257,7 @@ class ConcHarness:
 
     def project(self):
         p = {"next": len(self.started) + 1, "running": sorted(self.running), "peak": self.peak, "phase": self.phase(),
-             "futN": len(self.fut_attempts), "errors": [(n, type(e).__name__) for n, e in self.errors]}
+             "deferred": len(self.tasks) - self.tasks_run, "futN": len(self.fut_attempts), "errors": [(n, type(e).__name__) for n, e in self.errors]}
         if self.variant == "future":
             p["futVal"], p["futExc"], p["futOut"] = "none", 0, []
             if self.fut_attempts:
@@ -270,7 +288,7 @@ class ConcHarness:
 def spec_view(st):
     variant = st["variant"]
     p = {"next": st["next"], "running": sorted(st["running"]), "peak": st["peak"], "phase": st["phase"],
-         "futN": st["futN"], "errors": []}
+         "deferred": len(st["deferred"]), "futN": st["futN"], "errors": []}
     if variant == "future":
         p["futVal"], p["futExc"] = st["futVal"], st["futExc"]
         p["futOut"] = [[e["i"], e["ok"]] for e in st["futOut"]]
@@ -281,7 +299,8 @@ def spec_view(st):
 
 
 def config_of(st):
-    return {"n": st["n"], "c": st["c"], "failFast": st["failFast"], "variant": str(st["variant"]), "beh": [str(b) for b in st["beh"]]}
+    return {"n": st["n"], "c": st["c"], "failFast": st["failFast"], "variant": str(st["variant"]),
+            "beh": [str(b) for b in st["beh"]], "rec": st.get("rec", 100)}
 
 
 def classify(h, diff):
@@ -307,7 +326,8 @@ def replay(states, corrupt=None):
     """Replay one behaviour of Concurrent.tla (list of states, first = initial) on the real code.
     Returns (divergence or None, number of sections compared)."""
     cfg = config_of(states[0])
-    h = ConcHarness(cfg["n"], cfg["c"], cfg["failFast"], cfg["variant"], cfg["beh"])
+    h = ConcHarness(cfg["n"], cfg["c"], cfg["failFast"], cfg["variant"], cfg["beh"], cfg["rec"])
+    deferred_order = []                          # statements whose result went through session.submit, in that order
     compared = 0
     try:
         i = 1
@@ -326,12 +346,15 @@ def replay(states, corrupt=None):
                 b = states[k]["act"]
                 if b["name"] == "Start":
                     expect.append(("start", b["i"]))
-                elif b["name"] == "Put":
+                elif b["name"] == "StartDeferred":
+                    deferred_order.append(b["i"])
+                    expect += [("start", b["i"]), ("done", b["i"]), ("submit", len(deferred_order))]
+                elif b["name"] == "Put" and b["i"] not in deferred_order:
                     expect.append(("done", b["i"]))
             before = len(h.events)
             try:
-                h.do(a["name"], a["i"])
-            except Blocked as ex:
+                h.do(a["name"], deferred_order.index(a["i"]) if a["name"] == "RunDeferred" else a["i"])
+            except (Blocked, IndexError) as ex:           # (IndexError: the task the spec runs was never submitted)
                 return ({"step": j, "action": dict(a), "config": cfg, "kind": "blocked", "diff": {"blocked": str(ex)},
                          "signature": "%s:blocked:%s" % (h.variant, a["name"])}, compared)
             got_ev = h.events[before:]
